@@ -59,7 +59,9 @@ Record obj_eqv (d : bool) (o1 o2 : obj) : Prop := {
   oe_suicided : o_suicided o1 = o_suicided o2;
   oe_deleted : o_deleted o1 = o_deleted o2;
   oe_committed : forall k, committed_val d o1 k = committed_val d o2 k;
-  oe_state : forall k, state_val d o1 k = state_val d o2 k }.
+  oe_state : forall k, state_val d o1 k = state_val d o2 k;
+  oe_storage : forall k, ac_storage (o_data o1) k = ac_storage (o_data o2) k;
+  oe_pending : forall k, o_pending o1 k = o_pending o2 k }.
 
 Definition opt_rel {A : Type} (R : A -> A -> Prop) (x y : option A) : Prop :=
   match x, y with
@@ -87,12 +89,12 @@ Lemma obj_eqv_refl : forall d o, obj_eqv d o o.
 Proof. intros; constructor; auto. Qed.
 
 Lemma obj_eqv_sym : forall d o1 o2, obj_eqv d o1 o2 -> obj_eqv d o2 o1.
-Proof. intros d o1 o2 [? ? ? ? ? ? ?]; constructor; auto. Qed.
+Proof. intros d o1 o2 [? ? ? ? ? ? ? ? ?]; constructor; auto. Qed.
 
 Lemma obj_eqv_trans : forall d o1 o2 o3, obj_eqv d o1 o2 -> obj_eqv d o2 o3 -> obj_eqv d o1 o3.
 Proof.
-  intros d o1 o2 o3 [? ? ? ? ? Hc1 Hs1] [? ? ? ? ? Hc2 Hs2]; constructor; try congruence.
-  all: intro k; first [rewrite Hc1; apply Hc2 | rewrite Hs1; apply Hs2].
+  intros d o1 o2 o3 [? ? ? ? ? Hc1 Hs1 Ht1 Hp1] [? ? ? ? ? Hc2 Hs2 Ht2 Hp2]; constructor; try congruence.
+  all: intro k; first [rewrite Hc1; apply Hc2 | rewrite Hs1; apply Hs2 | rewrite Ht1; apply Ht2 | rewrite Hp1; apply Hp2].
 Qed.
 
 Lemma opt_rel_refl : forall A (R : A -> A -> Prop), (forall x, R x x) -> forall o, opt_rel R o o.
@@ -320,26 +322,26 @@ Proof. reflexivity. Qed.
 (** the field updates performed by the reverts preserve object equivalence *)
 Lemma f_balance_eqv : forall d p o1 o2, obj_eqv d o1 o2 ->
   obj_eqv d (seto_data o1 (setac_balance (o_data o1) p)) (seto_data o2 (setac_balance (o_data o2) p)).
-Proof. intros d p o1 o2 [? ? ? ? ? Hc Hs]; constructor; ss; auto. Qed.
+Proof. intros d p o1 o2 [? ? ? ? ? Hc Hs ? ?]; constructor; ss; auto. Qed.
 
 Lemma f_nonce_eqv : forall d p o1 o2, obj_eqv d o1 o2 ->
   obj_eqv d (seto_data o1 (setac_nonce (o_data o1) p)) (seto_data o2 (setac_nonce (o_data o2) p)).
-Proof. intros d p o1 o2 [? ? ? ? ? Hc Hs]; constructor; ss; auto. Qed.
+Proof. intros d p o1 o2 [? ? ? ? ? Hc Hs ? ?]; constructor; ss; auto. Qed.
 
 Lemma f_code_eqv : forall d p b o1 o2, obj_eqv d o1 o2 ->
   obj_eqv d (seto_dirtycode (seto_data o1 (setac_code (o_data o1) p)) b)
             (seto_dirtycode (seto_data o2 (setac_code (o_data o2) p)) b).
-Proof. intros d p b o1 o2 [? ? ? ? ? Hc Hs]; constructor; ss; auto. Qed.
+Proof. intros d p b o1 o2 [? ? ? ? ? Hc Hs ? ?]; constructor; ss; auto. Qed.
 
 Lemma f_suicide_eqv : forall d p b o1 o2, obj_eqv d o1 o2 ->
   obj_eqv d (seto_data (seto_suicided o1 p) (setac_balance (o_data o1) b))
             (seto_data (seto_suicided o2 p) (setac_balance (o_data o2) b)).
-Proof. intros d p b o1 o2 [? ? ? ? ? Hc Hs]; constructor; ss; auto. Qed.
+Proof. intros d p b o1 o2 [? ? ? ? ? Hc Hs ? ?]; constructor; ss; auto. Qed.
 
 Lemma f_storage_eqv : forall d k p o1 o2, obj_eqv d o1 o2 ->
   obj_eqv d (seto_dirty o1 (fupd (o_dirty o1) k p)) (seto_dirty o2 (fupd (o_dirty o2) k p)).
 Proof.
-  intros d k p o1 o2 [? ? ? ? ? Hc Hs]; constructor; ss; auto.
+  intros d k p o1 o2 [? ? ? ? ? Hc Hs ? ?]; constructor; ss; auto.
   intro k'; specialize (Hs k'); specialize (Hc k'); unfold state_val in *; ss. unfold fupd.
   destruct (N.eqb k' k); [reflexivity|]. exact Hs.
 Qed.
